@@ -14,6 +14,7 @@ import Yld.Model.Api
 import Yld.Model.Parser
 import Yld.Proofs.Program
 import Yld.Proofs.ClauseOK
+import Yld.Proofs.PyTop
 import Std.Data.String.ToNat
 namespace Yld.C01
 
@@ -118,5 +119,12 @@ theorem engine_is_frame_local (cfg : Cfg) (f : Nat) (name : String) (args : List
     of the clause declared before use, argument positions inside the parameter list. -/
 theorem clause_compiler_output_ok (c : Clause) (n m : Nat) (h : ClauseSrcOK c m) : ClauseOK (compileClause c n).1 m :=
   compileClause_ok c n m h
+
+/-- **The driver's `python` mode is the compiled mode**: running the queried predicate from the
+    Python text printed for it (what tie T2p compares with the real engine on every generated case)
+    is `query` on the compiled program — for every definition table built from front-end output. -/
+theorem python_mode_is_compiled_mode (cfg : Cfg) (hdefs : DefsPyOK cfg.defs) (f : Nat) (name : String) (args : List Term) :
+    queryPyTop cfg f name args = query cfg f name args :=
+  queryPyTop_eq cfg hdefs f name args
 
 end Yld.C01
